@@ -229,6 +229,7 @@ let run_expr line =
     let v = int_of_string (String.sub t 1 (String.length t - 1)) in
     match t.[0] with
     | 'v' -> BVal (z_of_int v) | 'r' -> BRef (n_of_int v) | 'c' -> BCRef (n_of_int v)
+    | 'f' -> BFunMem (n_of_int v) | 's' -> BSlotMem (n_of_int v) | 't' -> BTrackVal
     | _ -> raise (Parse ("bound " ^ t)) in
   let rec term () : fexpr =
     match next () with
